@@ -522,7 +522,8 @@ func oracleC08(x *Exec, r *StepRec) {
 			if pre.Height == q.ExpirationHeight {
 				x.stats.inc("probe_response_at_expiry_height")
 			}
-		} else if r.Res.Code == "error" {
+		} else if r.Res.Code == "error" || r.Res.Code == "panic" {
+			// (a handler that panics on the message refuses it just the same; out-of-gas is the injected fault, not a refusal)
 			if legit {
 				x.viol("C08", "refused_wrongly", fmt.Sprintf("height %d: in-time response of the designated provider to pending request %s (expiry %d) refused: %s", pre.Height, rid[:12], q.ExpirationHeight, r.Res.Err), attrs)
 				return
